@@ -104,4 +104,48 @@ def gunzip (z : Z) : Bytes → Option Bytes
       | _ => none
   | _ => none
 
+/-! ### the general member header of RFC 1952 §2.3 (optional fields by FLG bit)
+
+  `gunzip` above refuses every FLG ≠ 0.  `gunzipFull` is the reader a conforming decompressor
+  implements: FLG bit 2 FEXTRA (XLEN little endian + XLEN bytes), bit 3 FNAME and bit 4 FCOMMENT
+  (zero-terminated), bit 1 FHCRC (two bytes, skipped, not verified), bits 5..7 reserved (must be
+  zero), bit 0 FTEXT (a hint, no field).  The theorems show that for the members `compress()` builds
+  none of the optional fields is present and the deflate stream starts at offset 10. -/
+
+def flagBit (flg : UInt8) (k : Nat) : Bool := flg.toNat / 2 ^ k % 2 = 1
+
+/-- drop a zero-terminated string (terminator included) -/
+def dropZString : Bytes → Option Bytes
+  | [] => none
+  | b :: r => if b = 0 then some r else dropZString r
+
+def skipExtra : Bytes → Option Bytes
+  | l0 :: l1 :: r =>
+    let n := l0.toNat + 256 * l1.toNat
+    if n ≤ r.length then some (r.drop n) else none
+  | _ => none
+
+/-- what follows the ten fixed header bytes, after the optional fields announced by `flg` -/
+def skipOptional (flg : UInt8) (rest : Bytes) : Option Bytes :=
+  if flagBit flg 5 ∨ flagBit flg 6 ∨ flagBit flg 7 then none else
+  (if flagBit flg 2 then skipExtra rest else some rest).bind fun r1 =>
+  (if flagBit flg 3 then dropZString r1 else some r1).bind fun r2 =>
+  (if flagBit flg 4 then dropZString r2 else some r2).bind fun r3 =>
+  if flagBit flg 1 then (match r3 with | _ :: _ :: r4 => some r4 | _ => none) else some r3
+
+def gunzipFull (z : Z) : Bytes → Option Bytes
+  | 0x1f :: 0x8b :: 0x08 :: flg :: _m0 :: _m1 :: _m2 :: _m3 :: _xfl :: _os :: rest =>
+    match skipOptional flg rest with
+    | none => none
+    | some rest' =>
+      match z.inflate rest' with
+      | none => none
+      | some (data, tail) =>
+        match tail with
+        | [c0, c1, c2, c3, s0, s1, s2, s3] =>
+          if rd32 c0 c1 c2 c3 = (crc32 data).toNat ∧ rd32 s0 s1 s2 s3 = data.length % 4294967296
+          then some data else none
+        | _ => none
+  | _ => none
+
 end CpModel.Gzip
